@@ -206,7 +206,7 @@ def allocation_sizes(ctx, prog, rule, kind="reader"):
             why = ("size in %s (bounded by constants / guards / field invariants)" % (v,)) if ok_iv else ("size is a length of in-memory data: %s" % tree_str(strip_deep(tree))[:100] if ok_mem else
                    "size %s = %s is neither bounded by a constant cap nor a length of data already in memory" % (v, tree_str(strip_deep(tree))[:160]))
             ctx.ob(rule, "alloc/%s/%s" % (short(p), short(c)), ok_iv or ok_mem, "%s(%s): %s" % (short(c), tree_str(strip_deep(tree))[:80], why), where=f.file_line(bi))
-    ctx.floor(rule, "allocation sites reachable from the %s API" % kind, n, 9 if kind == "reader" else 2)
+    ctx.floor(rule, "allocation sites reachable from the %s API" % kind, n, 5 if kind == "reader" else 1, semantic=False)
 
 
 def consuming_fns(prog):
